@@ -1032,6 +1032,13 @@ def c16(tier):
                 # every third stream ends flat at zero or at a value tiny next to the prefix (a sum that should be exactly 0 or nearly so)
                 flats.append({"cfg": {"k": k, "n": n}, "unit": unit, "mode": "full", "eps": [1, 10000], "float": "f64",
                               "xs": flat_after_volatile(rnd, n, 1, 9999 if unit == 1000 else 999, small=(r % 3 == 2)), "k": 1})
+    # ... the same in f32 (1e-2 of the scale)
+    for k in kinds:
+        for n in (2, 3, 5, 8):
+            for r in range(3 if tier == "quick" else 30):
+                unit = rnd.choice([10, 100, 1000])
+                flats.append({"cfg": {"k": k, "n": n}, "unit": unit, "mode": "full", "eps": [1, 100], "float": "f32",
+                              "xs": flat_after_volatile(rnd, n, 1, 9999 if unit == 1000 else 999, small=(r % 3 == 2)), "k": 1})
     for i in range(0, len(flats), max(1, len(flats) // 3 + 1)):
         run.submit(p3_stream_job, "flat-%d" % (i // max(1, len(flats) // 3 + 1)), "C16", flats[i:i + len(flats) // 3 + 1])
     # the recursive views, for which "flat" takes much longer than a window: a volatile stretch, then 1200 identical values, validated
